@@ -1650,7 +1650,8 @@ func (pc *PeerConnection) startRTPReceivers(remoteDesc *SessionDescription, curr
 				Direction: RTPTransceiverDirectionSendrecv,
 			})
 			if err != nil {
-				pc.log.Warnf("Could not add transceiver for remote SSRC %d: %s", incomingTrack.ssrcs[0], err)
+				// a simulcast (rid-only) track has no SSRC: do not index into ssrcs
+				pc.log.Warnf("Could not add transceiver for remote SSRCs %v: %s", incomingTrack.ssrcs, err)
 
 				continue
 			}
